@@ -107,11 +107,25 @@ FillPrevCol(cells, prev) ==
   ELSE LET out == IF Head(cells) = NullCell THEN prev ELSE Head(cells)
        IN <<out>> \o FillPrevCol(Tail(cells), out)
 
+WildCell == <<"w">>      \* deviation models only: any value or none
+\* what FILL puts into a window without value
+FillOfNull(mode, fillv, isCount) ==
+  CASE mode = "num" -> <<"c", fillv>>
+    [] mode = "null" /\ isCount -> <<"c", 0>>
+    [] mode = "prev" -> WildCell
+    [] OTHER -> NullCell
+
 FillCol(cells, mode, fillv, isCount) ==
   CASE mode = "prev" -> FillPrevCol(cells, NullCell)
     [] mode = "num"  -> [i \in 1..Len(cells) |-> IF cells[i] = NullCell THEN <<"c", fillv>> ELSE cells[i]]
     [] mode = "null" -> [i \in 1..Len(cells) |-> IF cells[i] = NullCell /\ isCount THEN <<"c", 0>> ELSE cells[i]]
     [] OTHER         -> cells      \* "none": rows without any value are dropped by the caller
+
+FillColD(cells, mode, fillv, isCount, dv) ==
+  IF mode = "prev" /\ "fillprev_wild" \in dv
+    THEN [i \in 1..Len(cells) |-> IF cells[i] = NullCell THEN WildCell ELSE cells[i]]
+    ELSE FillCol(cells, mode, fillv, isCount)
+
 
 -----------------------------------------------------------------------------
 (* Part 1: semantics over the logical contents                              *)
@@ -201,8 +215,10 @@ PMinT(P) == Min({p[1] : p \in P})
 PMaxT(P) == Max({p[1] : p \in P})
 
 \* value cell of a call: <<"n">> | <<"c", count>> | <<"v", alternatives...>> | <<"m", sum, count>> (mean = sum/count)
-CallCell(fn, P) ==
+\* anyfl (deviation model of F-C08-2 only): first()/last() may return any point of the window
+CallCell(fn, P, anyfl) ==
   IF P = {} THEN NullCell
+  ELSE IF anyfl /\ fn \in {"first", "last"} THEN <<"v">> \o SortAsc({p[2] : p \in P})
   ELSE CASE fn = "count" -> <<"c", Cardinality(P)>>
          [] fn = "sum"   -> <<"v", PSum(P)>>
          [] fn = "mean"  -> <<"m", PSum(P), Cardinality(P)>>
@@ -212,7 +228,8 @@ CallCell(fn, P) ==
          [] OTHER        -> <<"v">> \o SortAsc({p[2] : p \in {x \in P : x[1] = PMaxT(P)}})   \* last
 
 \* time stamps a selector's point may carry
-CallTimes(fn, P) ==
+CallTimes(fn, P, anyfl) ==
+  IF anyfl /\ fn \in {"first", "last"} THEN SortAsc({p[1] : p \in P}) ELSE
   CASE fn = "min"   -> SortAsc({p[1] : p \in {x \in P : x[2] = PMinV(P)}})
     [] fn = "max"   -> SortAsc({p[1] : p \in {x \in P : x[2] = PMaxV(P)}})
     [] fn = "first" -> <<PMinT(P)>>
@@ -231,13 +248,20 @@ AggSeries1(D, q, g, desc, dv) ==
       bs    == IF desc /\ "desc_not_reversed" \notin dv THEN Reverse(asc) ELSE asc
       InB(r, b) == q.w = NONE \/ BucketD(r.t, q.w, dv) = b
       P(b, c)   == Pts({r \in S : InB(r, b)}, q.calls[c].f, dv)
-      raw   == [c \in 1..nc |-> [i \in 1..Len(bs) |-> CallCell(q.calls[c].fn, P(bs[i], c))]]
+      anyfl == desc /\ "firstlast_any" \in dv
+      raw   == [c \in 1..nc |-> [i \in 1..Len(bs) |-> CallCell(q.calls[c].fn, P(bs[i], c), anyfl)]]
       mode  == IF q.w = NONE THEN "none" ELSE q.fill
-      col   == [c \in 1..nc |-> FillCol(raw[c], mode, q.fillv, q.calls[c].fn = "count")]
+      col0  == [c \in 1..nc |-> FillColD(raw[c], mode, q.fillv, q.calls[c].fn = "count", dv)]
+      \* deviation model of F-C08-5 only: a descending filled GROUP BY tags, time() answer may lose values
+      lossy == desc /\ "descfill_lossy" \in dv /\ q.dims # <<>> /\ mode # "none"
+      col   == [c \in 1..nc |-> [i \in 1..Len(bs) |->
+                  IF lossy /\ raw[c][i] # NullCell
+                    THEN <<"o", col0[c][i], FillOfNull(mode, q.fillv, q.calls[c].fn = "count")>>
+                    ELSE col0[c][i]]]
       HasVal(i) == \E c \in 1..nc : raw[c][i] # NullCell
       sole  == q.w = NONE /\ nc = 1 /\ q.calls[1].fn \in Selectors
       TimeOf(i) == IF q.w # NONE THEN <<bs[i]>>
-                   ELSE IF sole THEN CallTimes(q.calls[1].fn, P(bs[i], 1))
+                   ELSE IF sole THEN CallTimes(q.calls[1].fn, P(bs[i], 1), anyfl)
                    ELSE <<IF q.tlo = NONE THEN EPOCH ELSE q.tlo>>
       keep  == SelectSeq([i \in 1..Len(bs) |-> i], LAMBDA i : mode # "none" \/ HasVal(i))
   IN [tags |-> TagsOfKey(q.dims, g),
@@ -292,16 +316,18 @@ WellFormed(D, q) ==
 \* the (data set, query) choices offered to Load / Ask; the MC module overrides them per mode
 CONSTANTS DataChoices(_), QueryChoices(_, _)
 
+\* as-implemented deviation models of the open findings (known_findings.json): the answers they predict
+KnownDevs == << <<"F-C08-1", {"cond_field_keeps_row"}>>, <<"F-C08-2", {"firstlast_any"}>>,
+               <<"F-C08-4", {"fillprev_wild"}>>, <<"F-C08-5", {"descfill_lossy"}>>,
+               <<"F-C08-1+2+4+5", {"cond_field_keeps_row", "firstlast_any", "fillprev_wild", "descfill_lossy"}>> >>
 Answers(D, q) ==
-  LET kdv == Dev \cup {"cond_field_keeps_row"}
-      a  == Eval(D, q, FALSE, Dev)
+  LET a  == Eval(D, q, FALSE, Dev)
       d  == Eval(D, q, TRUE, Dev)
-      ka == Eval(D, q, FALSE, kdv)
-      kd == Eval(D, q, TRUE, kdv)
-  IN [asc |-> a, desc |-> d,
-      \* prediction of the as-implemented deviation model of F-C08-1 (only where it differs)
-      kasc |-> IF ka = a THEN <<>> ELSE ka, kdesc |-> IF kd = d THEN <<>> ELSE kd,
-      known |-> IF ka = a /\ kd = d THEN "" ELSE "F-C08-1"]
+      K(i) == LET ka == Eval(D, q, FALSE, Dev \cup KnownDevs[i][2])
+                  kd == Eval(D, q, TRUE, Dev \cup KnownDevs[i][2])
+              IN [id |-> KnownDevs[i][1], differs |-> ka # a \/ kd # d, asc |-> ka, desc |-> kd]
+      ks == [i \in 1..Len(KnownDevs) |-> K(i)]
+  IN [asc |-> a, desc |-> d, known |-> SelectSeq(ks, LAMBDA k : k.differs)]
 
 Init == /\ data = NoData /\ cur = NoQ /\ hist = <<>> /\ cm = [on |-> FALSE]
 
